@@ -56,6 +56,11 @@ def run_history(vec):
     hist = vec["hist"]
     if not hist:
         return []
+    # (sets in which two dimensions share a name are outside the model: lookup by name would be ambiguous)
+    for st in hist:
+        for exp in list(st["post"].values()) + list(st["pre"].values()):
+            if exp != ["None"] and len({dims[e].name for e in exp}) != len(exp):
+                return []
     regs = {}
     for r, s in hist[0]["pre"].items():
         regs[r] = None if s == ["None"] else DimensionSet(dim_list=[dims[e] for e in s])
